@@ -511,6 +511,27 @@ pub fn run(mut run: Run) -> i32 {
                     }
                 }
             }
+            // ... and as a member of a MultiPolygon next to sound members whose boxes overlap its own, in every position (the member-vs-member
+            // checks must not be reached with non-finite coordinates); also inside a GeometryCollection
+            if !(a.x.is_finite() && a.y.is_finite()) {
+                let good1 = Polygon::new(LineString::new(vec![Coord { x: 1.0, y: 1.0 }, Coord { x: 3.0, y: 1.0 }, Coord { x: 3.0, y: 3.0 }, Coord { x: 1.0, y: 1.0 }]), vec![]);
+                let good2 = Polygon::new(LineString::new(vec![Coord { x: 10.0, y: 10.0 }, Coord { x: 12.0, y: 10.0 }, Coord { x: 12.0, y: 12.0 }, Coord { x: 10.0, y: 10.0 }]), vec![]);
+                for pos in 0..3usize {
+                    let mut members = vec![good1.clone(), good2.clone()];
+                    members.insert(pos, pg.clone());
+                    let mp = geo::MultiPolygon(members);
+                    acc.evals += 2;
+                    let r = guard(|| (mp.is_valid(), mp.validation_errors().is_empty()));
+                    if r != Ok((false, false)) {
+                        acc.viol("MultiPolygon with a member that has a non-finite coordinate: is_valid/validation_errors did not report it (or panicked)".into(), idx, || json!({"multipolygon": format!("{:?}", mp), "position": pos, "result": format!("{:?}", r)}));
+                    }
+                    let gc = Geometry::GeometryCollection(GeometryCollection(vec![Geometry::MultiPolygon(mp.clone()), Geometry::Point(Point(c3))]));
+                    let r = guard(|| gc.is_valid());
+                    if r != Ok(false) {
+                        acc.viol("GeometryCollection holding a MultiPolygon with a non-finite member coordinate accepted (or panicked)".into(), idx, || json!({"collection": format!("{:?}", gc), "result": format!("{:?}", r)}));
+                    }
+                }
+            }
         }
     });
     run.finish()
